@@ -404,6 +404,35 @@ RETURNS_OK = [
 ]
 
 
+# every built-in's declared parameter types x every argument type that is not convertible to it
+BI_LIT = {"I": "1", "F": "1.5", "B": "true", "S": '"ab"', "A": "[1, 2, 3]", "struct": "vst", "function": "inc", "tuple": "vtup", "union": "vun"}
+BI_PRE = ("struct P { x: int }\nunion UU { L { v: int }, R { s: string } }\nfn inc(a: int) -> int { return (+ a 1) }\nshadow inc { assert true }\n")
+
+
+def builtin_matrix():
+    reg = open(os.path.join(common.REPO, "src/builtins_registry.c")).read()
+    ents = re.findall(r'\{"(\w+)",\s*"?\w*"?,\s*(\d+),\s*\{(\w),(\w),(\w),(\w)\},\s*(\w),\s*\w+,\s*([^}]*)\}', reg)
+    if len(ents) < 80:
+        raise common.HarnessError("cannot parse src/builtins_registry.c (%d entries)" % len(ents))
+    numeric = ("I", "F")
+    for name, ar, a, b, c, d, ret, flags in ents:
+        ps = [a, b, c, d][:int(ar)]
+        if name in ("range", "print", "println", "assert"):
+            continue
+        for i, pt in enumerate(ps):
+            if pt not in "IFBSA":
+                continue      # 'unknown' parameters are typed by per-built-in rules
+            for wt in ("I", "F", "B", "S", "A", "struct", "function", "tuple", "union"):
+                if wt == pt or (wt in numeric and pt in numeric):
+                    continue      # int <-> float arguments of numeric built-ins are accepted by design
+                args = [BI_LIT.get(q, "1") for q in ps]
+                args[i] = BI_LIT[wt]
+                src = (BI_PRE + 'fn main() -> int {\n    (println "SENTINEL")\n    let vst: P = P { x: 1 }\n    let vtup: (int, int) = (1, 2)\n    let vun: UU = UU.L { v: 1 }\n'
+                       '    unsafe { (%s %s) }\n    return 0\n}\nshadow main { assert true }\n' % (name, " ".join(args)))
+                yield "argument-type", "built-in %s: argument %d (declared %s) := a %s value" % (name, i + 1, {"I": "int", "F": "float", "B": "bool", "S": "string", "A": "array"}[pt],
+                                                                                                {"I": "int", "F": "float", "B": "bool", "S": "string", "A": "array"}.get(wt, wt)), src
+
+
 def context_product():
     for cn, ctx in CONTEXTS.items():
         for rule, (desc, stmt) in ILL.items():
@@ -476,6 +505,8 @@ def run(tier):
         muts.append((rule, desc, text, False))
     for rule, desc, text in context_product():
         muts.append((rule, desc, text, rule == "seed"))
+    for rule, desc, text in builtin_matrix():
+        muts.append((rule, desc, text, False))
     rec = os.path.join(work, "muts.bin")
     with open(rec, "wb") as f:
         for m in muts:
